@@ -337,7 +337,100 @@ Definition ANALYSED : list fundef := [F_utils_as_float_type;
   F_cif_CIF_with_beamline].
 Theorem all_analysed_no_arg_write : Forall no_arg_write ANALYSED.
 Proof.
-  unfold ANALYSED.
-  repeat (apply Forall_cons; [first [exact no_arg_write_as_float_type|exact no_arg_write_L1|exact no_arg_write_L2|exact no_arg_write_straight_incident_beam|exact no_arg_write_straight_scattered_beam|exact no_arg_write_total_beam_length|exact no_arg_write_total_straight_beam_length_no_scatter|exact no_arg_write_two_theta|exact no_arg_write_beam_aligned_unit_vectors|exact no_arg_write__drop_due_to_gravity|exact no_arg_write__scattering_angles_with_gravity_generic|exact no_arg_write__scattering_angles_with_gravity_orthogonal_coords|exact no_arg_write_scattering_angles_with_gravity|exact no_arg_write_scattering_angle_in_yz_plane|exact no_arg_write_wavelength_from_tof|exact no_arg_write_dspacing_from_tof|exact no_arg_write_energy_from_tof|exact no_arg_write__energy_transfer_t0|exact no_arg_write_energy_transfer_direct_from_tof|exact no_arg_write_energy_transfer_indirect_from_tof|exact no_arg_write_energy_from_wavelength|exact no_arg_write_wavelength_from_energy|exact no_arg_write__wavelength_Q_conversions|exact no_arg_write_Q_from_wavelength|exact no_arg_write_wavelength_from_Q|exact no_arg_write_Q_elements_from_wavelength|exact no_arg_write_dspacing_from_wavelength|exact no_arg_write_dspacing_from_energy|exact no_arg_write_Q_vec_from_Q_elements|exact no_arg_write_ub_matrix_from_u_and_b|exact no_arg_write_hkl_vec_from_Q_vec|exact no_arg_write_hkl_elements_from_hkl_vec|exact no_arg_write_time_at_sample_from_tof|exact no_arg_write__gaussian|exact no_arg_write__lorentzian|exact no_arg_write__guess_from_peak|exact no_arg_write_Model_call|exact no_arg_write_Model_guess|exact no_arg_write_Model_with_prefix|exact no_arg_write_Model_add|exact no_arg_write_CompositeModel__call|exact no_arg_write_PolynomialModel__call|exact no_arg_write_GaussianModel__call|exact no_arg_write_LorentzianModel__call|exact no_arg_write_PseudoVoigtModel__call|exact no_arg_write_CompositeModel__guess|exact no_arg_write_PolynomialModel__guess|exact no_arg_write_GaussianModel__guess|exact no_arg_write_LorentzianModel__guess|exact no_arg_write_PseudoVoigtModel__guess|exact no_arg_write_remove_peaks|exact no_arg_write_FitResult_eval_peak|exact no_arg_write__clip_to_data_range|exact no_arg_write__fit_windows|exact no_arg_write__separate_from_neighbors_in_place|exact no_arg_write_wavelength_to_inverse_velocity|exact no_arg_write_propagate_times|exact no_arg_write__chop|exact no_arg_write_Subframe_propagate_by|exact no_arg_write_Frame_propagate_to|exact no_arg_write_Frame_chop|exact no_arg_write_Cylinder_beam_intersection|exact no_arg_write_Cylinder_quadrature|exact no_arg_write_Cylinder__select_quadrature_points|exact no_arg_write__line_infinite_cylinder_intersection|exact no_arg_write__line_slab_intersection|exact no_arg_write__positive_interval_intersection|exact no_arg_write_Atom_for_isotope|exact no_arg_write_Atom_atomic_weight|exact no_arg_write_Atom_atomic_mass|exact no_arg_write_ScatteringParams_for_isotope|exact no_arg_write_graph_tof_elastic|exact no_arg_write_graph_tof__strip_elastic|exact no_arg_write_graph_tof_kinematic|exact no_arg_write_graph_tof_elastic_dspacing|exact no_arg_write_graph_tof_elastic_energy|exact no_arg_write_graph_tof_elastic_Q|exact no_arg_write_graph_tof_elastic_Q_vec|exact no_arg_write_graph_tof_elastic_hkl|exact no_arg_write_graph_tof_elastic_wavelength|exact no_arg_write_graph_tof_direct_inelastic|exact no_arg_write_graph_tof_indirect_inelastic|exact no_arg_write_graph_beamline_beamline|exact no_arg_write_graph_beamline_two_theta|exact no_arg_write_graph_beamline_L1|exact no_arg_write_graph_beamline_L2|exact no_arg_write_graph_beamline_Ltotal|exact no_arg_write_graph_beamline_incident_beam|exact no_arg_write_graph_beamline_scattered_beam|exact no_arg_write_conversion_graph|exact no_arg_write_CIF_copy|exact no_arg_write_Block_copy|exact no_arg_write_CIF_with_reducers|exact no_arg_write_CIF_with_authors|exact no_arg_write_CIF_with_beamline]|]).
-  apply Forall_nil.
+  exact (Forall_cons _ no_arg_write_as_float_type
+  (Forall_cons _ no_arg_write_L1
+  (Forall_cons _ no_arg_write_L2
+  (Forall_cons _ no_arg_write_straight_incident_beam
+  (Forall_cons _ no_arg_write_straight_scattered_beam
+  (Forall_cons _ no_arg_write_total_beam_length
+  (Forall_cons _ no_arg_write_total_straight_beam_length_no_scatter
+  (Forall_cons _ no_arg_write_two_theta
+  (Forall_cons _ no_arg_write_beam_aligned_unit_vectors
+  (Forall_cons _ no_arg_write__drop_due_to_gravity
+  (Forall_cons _ no_arg_write__scattering_angles_with_gravity_generic
+  (Forall_cons _ no_arg_write__scattering_angles_with_gravity_orthogonal_coords
+  (Forall_cons _ no_arg_write_scattering_angles_with_gravity
+  (Forall_cons _ no_arg_write_scattering_angle_in_yz_plane
+  (Forall_cons _ no_arg_write_wavelength_from_tof
+  (Forall_cons _ no_arg_write_dspacing_from_tof
+  (Forall_cons _ no_arg_write_energy_from_tof
+  (Forall_cons _ no_arg_write__energy_transfer_t0
+  (Forall_cons _ no_arg_write_energy_transfer_direct_from_tof
+  (Forall_cons _ no_arg_write_energy_transfer_indirect_from_tof
+  (Forall_cons _ no_arg_write_energy_from_wavelength
+  (Forall_cons _ no_arg_write_wavelength_from_energy
+  (Forall_cons _ no_arg_write__wavelength_Q_conversions
+  (Forall_cons _ no_arg_write_Q_from_wavelength
+  (Forall_cons _ no_arg_write_wavelength_from_Q
+  (Forall_cons _ no_arg_write_Q_elements_from_wavelength
+  (Forall_cons _ no_arg_write_dspacing_from_wavelength
+  (Forall_cons _ no_arg_write_dspacing_from_energy
+  (Forall_cons _ no_arg_write_Q_vec_from_Q_elements
+  (Forall_cons _ no_arg_write_ub_matrix_from_u_and_b
+  (Forall_cons _ no_arg_write_hkl_vec_from_Q_vec
+  (Forall_cons _ no_arg_write_hkl_elements_from_hkl_vec
+  (Forall_cons _ no_arg_write_time_at_sample_from_tof
+  (Forall_cons _ no_arg_write__gaussian
+  (Forall_cons _ no_arg_write__lorentzian
+  (Forall_cons _ no_arg_write__guess_from_peak
+  (Forall_cons _ no_arg_write_Model_call
+  (Forall_cons _ no_arg_write_Model_guess
+  (Forall_cons _ no_arg_write_Model_with_prefix
+  (Forall_cons _ no_arg_write_Model_add
+  (Forall_cons _ no_arg_write_CompositeModel__call
+  (Forall_cons _ no_arg_write_PolynomialModel__call
+  (Forall_cons _ no_arg_write_GaussianModel__call
+  (Forall_cons _ no_arg_write_LorentzianModel__call
+  (Forall_cons _ no_arg_write_PseudoVoigtModel__call
+  (Forall_cons _ no_arg_write_CompositeModel__guess
+  (Forall_cons _ no_arg_write_PolynomialModel__guess
+  (Forall_cons _ no_arg_write_GaussianModel__guess
+  (Forall_cons _ no_arg_write_LorentzianModel__guess
+  (Forall_cons _ no_arg_write_PseudoVoigtModel__guess
+  (Forall_cons _ no_arg_write_remove_peaks
+  (Forall_cons _ no_arg_write_FitResult_eval_peak
+  (Forall_cons _ no_arg_write__clip_to_data_range
+  (Forall_cons _ no_arg_write__fit_windows
+  (Forall_cons _ no_arg_write__separate_from_neighbors_in_place
+  (Forall_cons _ no_arg_write_wavelength_to_inverse_velocity
+  (Forall_cons _ no_arg_write_propagate_times
+  (Forall_cons _ no_arg_write__chop
+  (Forall_cons _ no_arg_write_Subframe_propagate_by
+  (Forall_cons _ no_arg_write_Frame_propagate_to
+  (Forall_cons _ no_arg_write_Frame_chop
+  (Forall_cons _ no_arg_write_Cylinder_beam_intersection
+  (Forall_cons _ no_arg_write_Cylinder_quadrature
+  (Forall_cons _ no_arg_write_Cylinder__select_quadrature_points
+  (Forall_cons _ no_arg_write__line_infinite_cylinder_intersection
+  (Forall_cons _ no_arg_write__line_slab_intersection
+  (Forall_cons _ no_arg_write__positive_interval_intersection
+  (Forall_cons _ no_arg_write_Atom_for_isotope
+  (Forall_cons _ no_arg_write_Atom_atomic_weight
+  (Forall_cons _ no_arg_write_Atom_atomic_mass
+  (Forall_cons _ no_arg_write_ScatteringParams_for_isotope
+  (Forall_cons _ no_arg_write_graph_tof_elastic
+  (Forall_cons _ no_arg_write_graph_tof__strip_elastic
+  (Forall_cons _ no_arg_write_graph_tof_kinematic
+  (Forall_cons _ no_arg_write_graph_tof_elastic_dspacing
+  (Forall_cons _ no_arg_write_graph_tof_elastic_energy
+  (Forall_cons _ no_arg_write_graph_tof_elastic_Q
+  (Forall_cons _ no_arg_write_graph_tof_elastic_Q_vec
+  (Forall_cons _ no_arg_write_graph_tof_elastic_hkl
+  (Forall_cons _ no_arg_write_graph_tof_elastic_wavelength
+  (Forall_cons _ no_arg_write_graph_tof_direct_inelastic
+  (Forall_cons _ no_arg_write_graph_tof_indirect_inelastic
+  (Forall_cons _ no_arg_write_graph_beamline_beamline
+  (Forall_cons _ no_arg_write_graph_beamline_two_theta
+  (Forall_cons _ no_arg_write_graph_beamline_L1
+  (Forall_cons _ no_arg_write_graph_beamline_L2
+  (Forall_cons _ no_arg_write_graph_beamline_Ltotal
+  (Forall_cons _ no_arg_write_graph_beamline_incident_beam
+  (Forall_cons _ no_arg_write_graph_beamline_scattered_beam
+  (Forall_cons _ no_arg_write_conversion_graph
+  (Forall_cons _ no_arg_write_CIF_copy
+  (Forall_cons _ no_arg_write_Block_copy
+  (Forall_cons _ no_arg_write_CIF_with_reducers
+  (Forall_cons _ no_arg_write_CIF_with_authors
+  (Forall_cons _ no_arg_write_CIF_with_beamline
+  (Forall_nil _)))))))))))))))))))))))))))))))))))))))))))))))))))))))))))))))))))))))))))))))))))))))))))))))).
 Qed.
